@@ -23,14 +23,16 @@ Check (C09_field_extraction : forall fl n rho e path d d',
   (exists m, extract fl m rho e path = Ok d') /\ (exists m, run fl m rho (gets e path) = Ok d')).
 Check (C09_field_extraction_lazy : forall fl path rho e d,
   (exists n, run fl n rho (gets e path) = Ok d) <-> (exists m, extract fl m rho e path = Ok d)).
-Check (C09_need_refines_name_partial : forall fl n t r h,
+Check (C09_need_refines_name : forall fl n t r h,
   forallb (fun p => wft (snd p)) fl = true -> wft t = true ->
-  runN fl Good n t = (r, h) -> r <> OutOfFuel -> r <> Err InfiniteRec ->
-  exists m, run fl m [] t = r).
-Check (C09_need_extract_refines_name_partial : forall fl n t path r h,
+  runN fl Good n t = (r, h) -> r <> OutOfFuel ->
+  (r <> Err InfiniteRec -> exists m, run fl m [] t = r) /\
+  (r = Err InfiniteRec -> forall m, run fl m [] t = OutOfFuel)).
+Check (C09_need_extract_refines_name : forall fl n t path r h,
   forallb (fun p => wft (snd p)) fl = true -> wft t = true ->
-  extractN fl Good n t path = (r, h) -> r <> OutOfFuel -> r <> Err InfiniteRec ->
-  exists m, extract fl m [] t path = r).
+  extractN fl Good n t path = (r, h) -> r <> OutOfFuel ->
+  (r <> Err InfiniteRec -> exists m, extract fl m [] t path = r) /\
+  (r = Err InfiniteRec -> forall m, extract fl m [] t path = OutOfFuel)).
 Check (C09_need_wrongcell_refuted : exists t, wft t = true /\ acyclic t = true /\ ~ refines_on [] WrongCell t).
 Check (C09_need_callerenv_refuted : exists t, wft t = true /\ acyclic t = true /\ ~ refines_on [] CallerEnv t).
 (* the definitions the statements unfold to *)
